@@ -220,7 +220,7 @@ PROPS = {
         title='No accepted proof exists for an assignment that violates the circuit',
         design_ref='DESIGN.md section 4 / C02',
         bounded=[('plonky2', ['c02_', 'c08_'])],
-        vspecs=['contracts/C02/gate_constraints.vspec', 'contracts/C02/vanishing_poly.vspec', 'contracts/C02/partition_witness.vspec', 'contracts/C07/gate_constraints_circuit.vspec', 'contracts/C07/filtered_circuit.vspec', 'contracts/C02/forest.vspec', 'contracts/C02/partial_products.vspec', 'contracts/C15/poly_len.vspec', 'contracts/C03/plonk_verifier.vspec', 'contracts/C08/lookup_selectors.vspec'],
+        vspecs=['contracts/C02/gate_constraints.vspec', 'contracts/C02/vanishing_poly.vspec', 'contracts/C02/partition_witness.vspec', 'contracts/C07/gate_constraints_circuit.vspec', 'contracts/C07/filtered_circuit.vspec', 'contracts/C02/forest.vspec', 'contracts/C02/partial_products.vspec', 'contracts/C02/plonk_common.vspec', 'contracts/C15/poly_len.vspec', 'contracts/C03/plonk_verifier.vspec', 'contracts/C08/lookup_selectors.vspec'],
         level_text='Unbounded deductive proof (Verus/Z3) of three of the mechanisms the property names: (i) evaluate_gate_constraints returns, in every '
                    'slot j, the sum over EVERY gate type of the circuit of that gate\'s j-th filtered constraint, each taken with its own selector column '
                    'and group range (no gate skipped, nothing overwritten), and Gate::eval_filtered multiplies the gate\'s own evaluator (run on the '
@@ -235,7 +235,7 @@ PROPS = {
                    'refuses a second, different value for the class and changes nothing else (frame over all other classes and the partition), try_get_target reads that slot, so every target of a class reads the same value; '
                    '(vii) the in-circuit combiner evaluate_gate_constraints_circuit mirrors (i) (shared with C07); (viii) eval_vanishing_poly, the expression the verifier compares with Z_H(zeta) t(zeta), is, for EVERY challenge index i, the alpha-combination of L_0(x)(Z_i(x) - 1), '
                    'the partial-product checks over numerators w_j + beta_i k_j x + gamma_i and denominators w_j + beta_i sigma_j(x) + gamma_i with the i-th slice of partial products and Z_i(x), Z_i(gx), the lookup terms on the i-th slices, '
-                   'and the gate constraints of (i), in this order, with no group dropped (check_partial_products, the lookup terms, L_0 and the alpha reduction themselves are uninterpreted). '
+                   'and the gate constraints of (i), in this order, with no group dropped (check_partial_products, the lookup terms, L_0 and the alpha reduction are uninterpreted IN THAT CONTRACT); (ix) the helpers themselves (unit plonk_common): eval_zero_poly is x^n - 1, eval_l_0 is 1 at x = 1 and (x^n - 1)/(n(x - 1)) elsewhere with the division never reached on a zero divisor, reduce_with_powers returns sum_i terms[i] alpha^i over EVERY term (the reconstruction of t(zeta) from the quotient chunks in the verifier) and reduce_with_powers_multi returns that sum for EVERY alpha in its own slot. '
                    'The soundness argument over these mechanisms, the permutation argument and the adversarial-prover half are covered by a bounded '
                    'stand-in only.',
         level_note='Trusted: Verus+Z3; Gate::eval_unfiltered and compute_filter as uninterpreted functions (T10); dyn-Gate dispatch to the default '
@@ -245,7 +245,7 @@ PROPS = {
                    'prover strategies are exercised through the guarded hooks (cargo feature verif_hooks, MANIFEST.hooks): all-zero permutation polynomials, a quotient '
                    'perturbed for one challenge, lenient quotient truncation, each on copy-constraint-only violations; also a 37-routed-wire configuration and conflicting assignments.',
         remainder=['PLONK soundness (Schwartz-Zippel) over the checked identities', 'permutation argument: wire_partition / get_sigma_map / get_sigma_polys (HashMap code; bounded harness only)',
-                   'check_partial_products, check_lookup_constraints, eval_l_0, reduce_with_powers_multi (uninterpreted in eval_vanishing_poly; bounded harness only)', 'eval_vanishing_poly_base_batch (prover side) and eval_vanishing_poly_circuit (recursive verifier): bounded harness only', 
+                   'check_partial_products, check_lookup_constraints (uninterpreted in eval_vanishing_poly; bounded harness only); eval_l_0 and reduce_with_powers_multi are proved in unit plonk_common, but eval_vanishing_poly sees them as uninterpreted functions, so the link between the two contracts is by name, not by an imported contract', 'eval_vanishing_poly_base_batch (prover side) and eval_vanishing_poly_circuit (recursive verifier): bounded harness only', 
                    'adversarial prover strategies beyond the three hooked ones (all-zero Z, per-challenge quotient alteration, lenient truncation): not exercised'],
     ),
     'C08': dict(
